@@ -23,7 +23,10 @@ def gen_cfg(rng, tier: str, big: bool = False) -> dict:
     cl = rng.choice([1, 2, 8, 16, 32, 128, 2048] if tier == "quick" else [1, 2, 3, 8, 16, 17, 32, 64, 128, 256, 2048, 4096])
     if big:
         cl = rng.choice([2048, 4096])
-        ncl = rng.randint(1 << 14, 1 << 21) if ver == 2 else rng.randint(1 << 10, (1 << 32) // cl - 1)
+        if ver == 2:
+            ncl = rng.randint(1 << 14, 1 << 18) if rng.random() < 0.85 else (1 << 20) + rng.randint(1, 4000)
+        else:
+            ncl = rng.randint(1 << 10, min(1 << 18, (1 << 32) // cl - 1))
     else:
         ncl = rng.choice([1, 2, 3, 4, 5, 6, 8, 12, 20])
     nsectors = ncl * cl
@@ -71,13 +74,10 @@ def render(cfg: dict, layer: Layer, view: View, parent: dict | None = None, name
                          ("m_FirstBlockOffset", 48, 4, "offset"), ("m_Flags", 52, 4, "flags"),
                          ("m_FormatExtensionOffset", 56, 8, "offset")]:
         img.field("hds.hdr." + n, name, off, w, "<", k)
-    bat = []
-    for u in range(ncl):
-        if layer.ustate(u) == "unalloc":
-            bat.append(0)
-        else:
-            c = first_cluster + slots[u]
-            bat.append(c * cl if ver == 1 else c)
+    bat = [0] * ncl
+    for u in need:
+        c = first_cluster + slots[u]
+        bat[u] = c * cl if ver == 1 else c
     f.write(64, struct.pack("<%dI" % ncl, *bat))
     img.field("hds.bat", name, 64, 4 * ncl, "<", "table")
     for i in range(min(ncl, 4)):
